@@ -65,6 +65,8 @@ std::string projectModel(NifFile& nif);
 std::unique_ptr<NiObject> makeBlock(const JV& b, const nifly::NiVersion& ver);
 // Apply one NifGraph action (as exported by TLC) to a live model. Returns false if the op is unknown.
 bool applyGraphOp(NifFile& nif, const JV& a);
+// A seeded random NifGraph action (JSON) that is applicable to the model (well-formed arguments)
+std::string randomGraphOp(NifFile& nif, std::mt19937_64& rng);
 
 // Abstract view of saved bytes, read by the independent header parser and a walk over the size table. When `model` is
 // given (the in-memory model right after the save) reference/string-index fields are masked at the offsets recorded
